@@ -436,3 +436,145 @@ theorem C13_builtin_output_not_reloadable {cfg : Cfg} (hb : cfg.emitBuiltin = tr
     have := congrArg Definition.builtIn e
     simpa [Definition.erasePos, normDef, dropHidden] using this
   exact load_rejects_user_dunder (d := d') (by simp [SchemaDoc.merge, hd']) hbi (by rw [hn]; exact hdun)
+
+/-! ### hypotheses of `C13_schema_reload` that cannot be dropped: kernel-checked witnesses -/
+
+section Witnesses
+open Gql.Load Gql.Format.Examples
+
+/-- `scalar Query`, loaded (the loader makes it the query root and appends `__schema`, `__type`) -/
+def C13_scalarQuerySchema : Schema := loadD (SchemaDoc.empty.merge scalarQueryDoc)
+
+theorem C13_scalarQuerySchema_raw :
+    docOfSchemaRaw C13_scalarQuerySchema = docOf [addIntrospection (mkDef .scalar "Query" [])] := by
+  have ht : C13_scalarQuerySchema.types = [(str "Query", addIntrospection (mkDef .scalar "Query" []))] := rfl
+  have hd : C13_scalarQuerySchema.directives = [] := rfl
+  have h1 : needSchema C13_scalarQuerySchema = false := by decide
+  have h2 : C13_scalarQuerySchema.schemaDirectives = [] := rfl
+  unfold docOfSchemaRaw
+  rw [ht, hd, sortedByKey_single, h1, h2]
+  simp [sortedByKey, docOf]
+
+/-- FINDING (new, consequence of the recorded C07 finding `non-object-root-type`): `scalar Query` loads; the
+    loader appends the introspection fields to the scalar; `FormatSchema` hides them but still writes the
+    braces of the field list: the text is `scalar Query {⏎}⏎`, which is not a type-system document (Go:
+    `rts` answers `reparse-fails:Unexpected {`; the same for `enum Query { A }` and `union Query = A`).
+    Here: `NoAllHidden` fails, and without it the text is NOT the text of `docOfSchema` (`scalar Query⏎`). -/
+theorem C13_schema_hidden_fields_counterexample :
+    load (SchemaDoc.empty.merge scalarQueryDoc) = .ok C13_scalarQuerySchema ∧
+    ¬ NoAllHidden {} C13_scalarQuerySchema ∧
+    fmtSchema {} C13_scalarQuerySchema = str "scalar Query {\n}\n" ∧
+    fmtSchemaDoc {} (docOfSchema {} C13_scalarQuerySchema) = str "scalar Query\n" := by
+  refine ⟨loadD_ok (by decide), by decide, ?_, ?_⟩
+  · rw [C13_schema_text_is_raw_document_text, C13_scalarQuerySchema_raw]
+    decide
+  · have ht : C13_scalarQuerySchema.types = [(str "Query", addIntrospection (mkDef .scalar "Query" []))] := rfl
+    have : docOfSchema {} C13_scalarQuerySchema = docOf [mkDef .scalar "Query" []] := by
+      unfold docOfSchema
+      rw [C13_scalarQuerySchema_raw, ht, sortedByKey_single]
+      rfl
+    rw [this]
+    decide
+
+/-- prelude `type __T { a: __T }`, user source `extend type __T { b: __T }`, loaded -/
+def C13_extendedBuiltinSchema : Schema := loadD (tinyPrelude.merge extendBuiltinDoc)
+
+/-- FINDING (new): an extension of a BUILT-IN type is lost.  `FormatSchema` skips built-in types, so the
+    fields (or directives) a user source adds to one are not printed, and the reloaded schema has the
+    prelude's definition (Go: `type Query { a: Int } extend type __Type { extra: Int }` — `rts` answers
+    `tree-differs:SCHEMA-DF`; likewise `extend scalar String @x`).  `UserShape.extNotBuiltin` excludes it. -/
+theorem C13_schema_reload_needs_no_builtin_extension :
+    PreludeShape tinyPrelude ∧ ¬ UserShape tinyPrelude extendBuiltinDoc ∧
+    load (tinyPrelude.merge extendBuiltinDoc) = .ok C13_extendedBuiltinSchema ∧
+    (C13_extendedBuiltinSchema.types.lookup (str "__T")).map (fun d => d.fields.map (·.name)) = some [str "a", str "b"] ∧
+    ∃ s', load (tinyPrelude.merge (printed {} C13_extendedBuiltinSchema)) = .ok s' ∧
+      (s'.types.lookup (str "__T")).map (fun d => d.fields.map (·.name)) = some [str "a"] := by
+  have hp : printed {} C13_extendedBuiltinSchema = docOf [] := by
+    have ht : C13_extendedBuiltinSchema.types =
+        [(str "__T", mkDef .object "__T" [field "a" "__T", field "b" "__T"] true)] := rfl
+    have hd : C13_extendedBuiltinSchema.directives = [] := rfl
+    have h1 : needSchema C13_extendedBuiltinSchema = false := by decide
+    have h2 : C13_extendedBuiltinSchema.schemaDirectives = [] := rfl
+    unfold printed docOfSchema docOfSchemaRaw
+    rw [ht, hd, sortedByKey_single, h1, h2]
+    simp [sortedByKey, docOf, normSchemaDoc, setBuiltIn, mergeSchemaDefs, keepDef, dropHidden, mkDef]
+  refine ⟨by decide, by decide, loadD_ok (by decide), by decide, ?_⟩
+  rw [hp]
+  exact ⟨_, loadD_ok (by decide), by decide⟩
+
+/-- the configuration of the next witness: `WithoutDescription` -/
+def C13_noDescCfg : Cfg := { omitDescription := true }
+
+def C13_describedArgSchema : Schema := loadD (SchemaDoc.empty.merge describedArgDoc)
+def C13_describedArgReloaded : Schema := loadD (SchemaDoc.empty.merge describedArgDocPrinted)
+
+/-- KNOWN FINDING `s:not-a-fixpoint`: with `WithoutDescription` the comma after an argument that HAS a
+    description is skipped although the description is not written.  `input In { x: In }
+    directive @d("x" a: In  b: In) on FIELD` loads; its text is `directive @d(a: In b: In) on FIELD …`; the
+    printed document loads (in accordance with `C13_schema_reload_document`) and the text of THAT schema is
+    `directive @d(a: In, b: In) on FIELD …`: formatting the result again does not reproduce the text. -/
+theorem C13_schema_not_a_fixpoint_counterexample :
+    load (SchemaDoc.empty.merge describedArgDoc) = .ok C13_describedArgSchema ∧
+    printed C13_noDescCfg C13_describedArgSchema = describedArgDocPrinted ∧
+    load (SchemaDoc.empty.merge (printed C13_noDescCfg C13_describedArgSchema)) = .ok C13_describedArgReloaded ∧
+    fmtSchema C13_noDescCfg C13_describedArgSchema = str "directive @d(a: In b: In) on FIELD\ninput In {\n\tx: In\n}\n" ∧
+    fmtSchema C13_noDescCfg C13_describedArgReloaded = str "directive @d(a: In, b: In) on FIELD\ninput In {\n\tx: In\n}\n" := by
+  have raw : ∀ (s : Schema) (dIn : Definition) (dd : DirectiveDef), s.types = [(str "In", dIn)] →
+      s.directives = [(str "d", dd)] → needSchema s = false → s.schemaDirectives = [] →
+      docOfSchemaRaw s = { docOf [dIn] with directives := [dd] } := by
+    intro s dIn dd ht hd h1 h2
+    unfold docOfSchemaRaw
+    rw [ht, hd, sortedByKey_single, sortedByKey_single, h1, h2]
+    simp [docOf]
+  have r1 := raw C13_describedArgSchema _ _ rfl rfl (by decide) rfl
+  have r2 := raw C13_describedArgReloaded _ _ rfl rfl (by decide) rfl
+  have hp : printed C13_noDescCfg C13_describedArgSchema = describedArgDocPrinted := by
+    have ht : C13_describedArgSchema.types = [(str "In", mkDef .inputObject "In" [field "x" "In"])] := rfl
+    unfold printed docOfSchema
+    rw [r1, ht, sortedByKey_single]
+    rfl
+  refine ⟨loadD_ok (by decide), hp, ?_, ?_, ?_⟩
+  · rw [hp]; exact loadD_ok (by decide)
+  · rw [C13_schema_text_is_raw_document_text, r1]; decide
+  · rw [C13_schema_text_is_raw_document_text, r2]; decide
+
+/-- `type Query { """a⏎b""" f: Query }`, loaded -/
+def C13_describedFieldSchema : Schema := loadD (SchemaDoc.empty.merge describedFieldDoc)
+
+/-- KNOWN FINDING (line-break indents): the hypothesis `AllBlank cfg.indent` cannot be widened to all white
+    space.  With `WithIndent("\n")` the description `a⏎b` of a field is written with an empty line between
+    its lines; the block string read back has the value `a⏎⏎b`. -/
+theorem C13_schema_linebreak_indent_counterexample :
+    load (SchemaDoc.empty.merge describedFieldDoc) = .ok C13_describedFieldSchema ∧
+    fmtSchema { indent := [10] } C13_describedFieldSchema
+      = str "type Query {\n\n\"\"\"\n\na\n\nb\n\n\"\"\"\n\nf: Query\n}\n" ∧
+    blockStringValue (str "\n\na\n\nb\n\n") = [97, 10, 10, 98] := by
+  refine ⟨loadD_ok (by decide), ?_, by decide⟩
+  have ht : C13_describedFieldSchema.types =
+      [(str "Query", addIntrospection (mkDef .object "Query" [field "f" "Query" [97, 10, 98]]))] := rfl
+  have hd : C13_describedFieldSchema.directives = [] := rfl
+  have h1 : needSchema C13_describedFieldSchema = false := by decide
+  have h2 : C13_describedFieldSchema.schemaDirectives = [] := rfl
+  have raw : docOfSchemaRaw C13_describedFieldSchema =
+      docOf [addIntrospection (mkDef .object "Query" [field "f" "Query" [97, 10, 98]])] := by
+    unfold docOfSchemaRaw
+    rw [ht, hd, sortedByKey_single, h1, h2]
+    simp [sortedByKey, docOf]
+  rw [C13_schema_text_is_raw_document_text, raw]
+  decide
+
+end Witnesses
+
+#print axioms C13_schema_text_is_raw_document_text
+#print axioms C13_schema_text_is_document_text
+#print axioms C13_schema_format_tokens
+#print axioms C13_schema_format_parses
+#print axioms C13_schema_reload
+#print axioms C13_schema_reload_document
+#print axioms C13_schema_description_not_printed
+#print axioms C13_schema_description_counterexample
+#print axioms C13_builtin_output_not_reloadable
+#print axioms C13_schema_hidden_fields_counterexample
+#print axioms C13_schema_reload_needs_no_builtin_extension
+#print axioms C13_schema_not_a_fixpoint_counterexample
+#print axioms C13_schema_linebreak_indent_counterexample
